@@ -224,7 +224,7 @@ def gen_case(rng):
     if base and rng.random() < 0.5:
         cap = max(cap, len(base) + rng.choice([0, 1, 2]))
     return {"kind": "lz", "X": X, "Xnew": Xn, "cap": cap, "max_columns": rng.choice(MCS) if rng.random() < 0.4 else None, "base": base,
-            "seed": rng.randint(0, 10 ** 6)}
+            "seed": rng.randint(0, 10 ** 6), "prehistory": rng.random() < 0.5}
 
 
 def gen_invalid(rng):
